@@ -1846,7 +1846,7 @@ var sal _sal
 
 // maxBigIntBits bounds the size of the BigInt results of <<, ** and asIntN/asUintN: a larger result is a RangeError
 // (ECMA-262 leaves the maximum BigInt size to the implementation; without a bound the host runs out of memory).
-const maxBigIntBits = 1 << 30
+const maxBigIntBits = 1 << 25
 
 func (r *Runtime) throwBigIntTooBig() {
 	panic(r.newError(r.getRangeError(), "Maximum BigInt size exceeded"))
